@@ -235,6 +235,9 @@ class AsyncListener:
             if incoming.data == msg.data:
                 return
         deferred.append(msg)
+        # The query is answered when its last packet has arrived, its questions
+        # were heard now
+        self._query_handler.async_remember_query(msg, msg.now)
         delay = millis_to_seconds(random.randint(*_TC_DELAY_RANDOM_INTERVAL))
         loop = self.zc.loop
         assert loop is not None
